@@ -882,7 +882,8 @@ func (p *protocolV2) MPUB(client *clientV2, params [][]byte) ([]byte, error) {
 			fmt.Sprintf("MPUB body too big %d > %d", bodyLen, p.nsqd.getOpts().MaxBodySize))
 	}
 
-	messages, err := readMPUB(client.Reader, client.lenSlice, topic,
+	// read no more than the declared (and range-checked) body size
+	messages, err := readMPUB(io.LimitReader(client.Reader, int64(bodyLen)), client.lenSlice, topic,
 		p.nsqd.getOpts().MaxMsgSize, p.nsqd.getOpts().MaxBodySize)
 	if err != nil {
 		return nil, err
